@@ -14,7 +14,7 @@
 //	proto <hexname> <hexversion> <locs> <src> <anns> <layer> <purl> <hexeco> <hexextractor> <hexmetatype|_>
 //	  locs := '_' | hex (',' hex)*   src := '_' | hexrepo ':' hexcommit   anns := '_' | int (',' int)*
 //	  layer := '_' | index ':' hexdiff ':' hexcmd ':' <0|1>   purl := '_' | hextype:hexns:hexname:hexver:quals:hexsub   quals := '_' | hexkey '=' hexval (';' …)*
-//	  ->  name= version= locs= src= anns=<U|T|O|C letters> layer= purl= eco= ex= meta=<0|1 oneof set> pstr=<1: Purl.purl = String()>
+//	  ->  gen=<the record read back with the Go port of the spec reader> name= version= locs= src= anns=<U|T|O|C letters> layer= purl= eco= ex= meta=<0|1 oneof set> pstr=<1: Purl.purl = String()>
 package main
 
 import (
@@ -352,7 +352,26 @@ func runProto(c protoCase) string {
 			}
 			anns = strings.Join(o, ",")
 		}
-		return fmt.Sprintf("name=%s version=%s locs=%s src=%s anns=%s layer=%s purl=%s eco=%s ex=%s meta=%s pstr=%s",
+		// Go port of the SPECIFICATION's reader (lean/Scalibr/Spec/ProtoPkg.lean `read`): what a consumer recovers from the REAL
+		// record — annotations as their numeric values, the layer index as a number, the purl's fields and printed form —
+		// rendered like the driver renders `genericOf` of the package (sgen=); compared when the package is `Representable`
+		rAnns := "_"
+		if as := g.GetAnnotations(); len(as) > 0 {
+			var o []string
+			for _, a := range as {
+				o = append(o, strconv.Itoa(int(a)))
+			}
+			rAnns = strings.Join(o, ",")
+		}
+		rPstr := "_"
+		if p := g.GetPurl(); p != nil {
+			rPstr = "S" // stands for "the printed form of ToPURL's purl"
+			if c.u == nil || p.GetPurl() != c.u.String() {
+				rPstr = hx.Hex(p.GetPurl())
+			}
+		}
+		gen := strings.Join([]string{hx.Hex(g.GetName()), hx.Hex(g.GetVersion()), hexItems(g.GetLocations()), src, rAnns, layer, pu, rPstr, hx.Hex(g.GetEcosystem()), hx.Hex(g.GetExtractor())}, "|")
+		return fmt.Sprintf("gen=%s name=%s version=%s locs=%s src=%s anns=%s layer=%s purl=%s eco=%s ex=%s meta=%s pstr=%s", gen,
 			hx.Hex(g.GetName()), hx.Hex(g.GetVersion()), hexItems(g.GetLocations()), src, anns, layer, pu, hx.Hex(g.GetEcosystem()), hx.Hex(g.GetExtractor()),
 			hx.B(g.GetMetadata() != nil), pstr)
 	})
